@@ -8,6 +8,7 @@ package saml2
 
 import (
 	"crypto"
+	"crypto/rsa"
 	"time"
 
 	dsig "github.com/russellhaering/goxmldsig"
@@ -69,3 +70,12 @@ func vB64(b []byte) string
 func vStr(b []byte) string
 func vCtxSigner(ctx *dsig.SigningContext) crypto.Signer
 func vCtxCerts(ctx *dsig.SigningContext) [][]byte
+
+func vRSAKey(name string) *rsa.PrivateKey
+func vWrapKey(name string, key *rsa.PrivateKey, transportAlg, digestAlg string, payload []byte) string
+func vCipherValue(name string, alg string, key []byte, maxLen int) string
+func vPlainByte(name string, i int) byte
+func vCipherLen(cipherValue string) int
+func vB64OK(s string) bool
+func vByteAt(b []byte, i int) byte
+func vRSADecryptCalls() int
